@@ -28,8 +28,9 @@ SCALES = (-1, 0, 16, 256)      # -1: scale=None (bounding-box area); else A16 = 
 
 
 # ------------------------------------------------------------------ OKS ------------------------
-def oks_matrix(E, gts, prs, opt):
-    kw = dict(stddev=opt["s"] / 40.0, use_cocoeval=opt["coco"])
+def oks_matrix(E, gts, prs, opt, sarr=None):
+    # sarr: the caller's per-keypoint stddev ARRAY (documented option), one object shared by every call of the case
+    kw = dict(stddev=(sarr if sarr is not None else opt["s"] / 40.0), use_cocoeval=opt["coco"])
     if opt["scale"] >= 0:
         kw["scale"] = opt["scale"] / 16.0
     M = E.compute_oks(np.stack([U.pose_np(p) for p in gts]), np.stack([U.pose_np(p) for p in prs]), **kw)
@@ -44,7 +45,9 @@ def observe_oks(c):
 
     gts, prs, opt = c["gts"], c["prs"], c["opt"]
     G, P, N = len(gts), len(prs), len(gts[0])
-    c.update(raised="", area=[-1] * G, M=[], ks=[])
+    c.update(raised="", area=[-1] * G, M=[], ks=[], argmut=False)
+    sarr = np.full(N, opt["s"] / 40.0) if opt.get("sarr") else None
+    sarr0 = None if sarr is None else sarr.copy()
     skip = dict(cls="skip", kq=0, q=0)
     with warnings.catch_warnings():
         warnings.simplefilter("ignore")
@@ -54,7 +57,7 @@ def observe_oks(c):
                 a = float(np.asarray(E.compute_instance_area(U.pose_np(gts[g]))).ravel()[0])
                 areas.append(a)
                 c["area"][g] = int(round(a * 16)) if np.isfinite(a) and abs(a * 16 - round(a * 16)) < 1e-6 else -1
-            c["M"] = oks_matrix(E, gts, prs, opt)
+            c["M"] = oks_matrix(E, gts, prs, opt, sarr)
             ks = []
             for g in range(G):
                 scale = opt["scale"] / 16.0 if opt["scale"] >= 0 else areas[g]
@@ -74,15 +77,17 @@ def observe_oks(c):
             for r in c["rels"]:
                 if r["t"] == "translate":
                     sh = lambda pose: [[nd[0] + r["dx"], nd[1] + r["dy"]] if nd else [] for nd in pose]  # noqa: E731
-                    r["M"] = oks_matrix(E, [sh(p) for p in gts], [sh(p) for p in prs], opt)
+                    r["M"] = oks_matrix(E, [sh(p) for p in gts], [sh(p) for p in prs], opt, sarr)
                 elif r["t"] == "permute":
-                    r["M"] = oks_matrix(E, [gts[k - 1] for k in r["pg"]], [prs[k - 1] for k in r["pp"]], opt)
+                    r["M"] = oks_matrix(E, [gts[k - 1] for k in r["pg"]], [prs[k - 1] for k in r["pp"]], opt, sarr)
                 elif r["t"] == "move":
                     prs2 = [list(p) for p in prs]
                     prs2[r["p"] - 1][r["n"] - 1] = r["to"]
-                    r["M"] = oks_matrix(E, gts, prs2, opt)
+                    r["M"] = oks_matrix(E, gts, prs2, opt, sarr)
         except Exception as e:  # noqa: BLE001
             c["raised"] = "%s: %s" % (type(e).__name__, e)
+    # measurement: did any call write into the caller's stddev array?
+    c["argmut"] = bool(sarr is not None and not np.array_equal(sarr, sarr0))
     return c
 
 
@@ -114,7 +119,7 @@ def rand_pose(rng, N, pattern):
 def oks_cases(tier, rng):
     quick = tier == "quick"
     out = []
-    opts = [dict(s=s, coco=c, scale=a) for s in S_VALUES for c in (True, False) for a in SCALES]
+    opts = [dict(s=s, coco=c, scale=a, sarr=False) for s in S_VALUES for c in (True, False) for a in SCALES]
     # family A: one node, gt at (8,8), prediction over the whole 17x17 lattice (stride 2 in quick) or missing
     step = 2 if quick else 1
     for opt in opts:
@@ -147,7 +152,9 @@ def oks_cases(tier, rng):
                                 if nd:
                                     nd[1] = 8
                         prs = [first] + [rand_pose(rng, N, rng.choice(pats)) for _ in range(P - 1)]
-                        out.append(dict(kind="oks", fam="B", gts=gts, prs=prs, opt=opt, rels=mk_rels(rng, gts, prs)))
+                        # a third of the cases pass the documented per-keypoint stddev ARRAY (same values), one object shared by
+                        # the base call and all relation calls of the case
+                        out.append(dict(kind="oks", fam="B", gts=gts, prs=prs, opt=dict(opt, sarr=(rng.random() < 0.34)), rels=mk_rels(rng, gts, prs)))
     return out, nA
 
 
@@ -321,7 +328,7 @@ def record(c):
     """JSON record for TLC (inputs + projected observations only)."""
     k = c["kind"]
     if k == "oks":
-        return dict(id=c["id"], kind=k, gts=c["gts"], prs=c["prs"], opt=c["opt"], area=c["area"], M=c["M"], ks=c["ks"], rels=c["rels"], raised=c["raised"])
+        return dict(id=c["id"], kind=k, gts=c["gts"], prs=c["prs"], opt=c["opt"], area=c["area"], M=c["M"], ks=c["ks"], rels=c["rels"], raised=c["raised"], argmut=bool(c.get("argmut", False)))
     if k == "match":
         return dict(id=c["id"], kind=k, I=c["I"], reply=c["reply"], raised=c["raised"])
     if k in ("hung", "greedy"):
